@@ -427,7 +427,7 @@ def sym_computed_pkg(vc):
                               not (set(mutable_parts(raw)) & set(mutable_parts(target))))
                 cover(it, 'resource-iter-reachable[%s]' % tkind)
             it.loops['func#L0'] = LoopSpec(at_start=res_start, at_end=res_end)
-            it.loops['func#L2'] = LoopSpec(modes=('exit',))
+            it.loops['func#L1'] = LoopSpec(modes=('exit',))
             it.run_generator(it.call(func, [package]))
             # the caller's specification is read, never rewritten (a second use of the same spec must behave like the first)
             check(it, 'callers-specification-left-as-given[%s]' % tkind, f0.d['target'] is target and
@@ -475,7 +475,7 @@ def thunk_inferred(it, maker, tname):
                   d.get('type') is mine[0][3])
         cover(it, 'resource-iter-reachable[name-inferred]')
     it.loops['func#L0'] = LoopSpec(at_start=res_start, at_end=res_end)
-    it.loops['func#L2'] = LoopSpec(modes=('exit',))
+    it.loops['func#L1'] = LoopSpec(modes=('exit',))
     it.run_generator(it.call(func, [package]))
 
 
